@@ -329,6 +329,13 @@ Definition plog_write (l : list val) (v : val) : option (list val * list plop) :
 Definition plog_get (l : list val) (i : Z) : option val :=
   if (1 <=? i) && (i <=? Z.of_nat (List.length l)) then nth_error l (Z.to_nat (i - 1)) else None.
 
+(* criticalSectionState of an unreplicated 2PC variable *)
+Inductive tcs := TNot | TIn | TPre.
+Definition tcs_enter (c : tcs) : tcs := match c with TNot => TIn | _ => c end.
+
+(* GCounter.Write: int32 addition (wraps silently) *)
+Definition add32 (a b : Z) : Z := ((a + b + 2147483648) mod 4294967296) - 2147483648.
+
 Inductive leaf :=
 | LLocal (value oldValue : val)                                  (* LocalArchetypeResource *)
 | LIn (buffer backlog chan : list val)                           (* InputChan; chan = ghost Go channel *)
@@ -342,8 +349,14 @@ Inductive leaf :=
 | LPLog (lg oldLg : list val) (hasOld : bool) (ops : list plop) (db : list (Z * val))
 | LShared (value oldValue : val) (hasLock other : bool)          (* localShared; other = lock held elsewhere *)
 | LRelaxed (hasSent : bool) (sent inflight : list val) (down : bool) (* relaxedMailboxesRemote; ghost stream, split as for LSOut *)
-| LTcp (inCS : bool) (rbuf delivered : list val).                (* tcpMailboxesRemote + the receiving connection handler:
+| LTcp (inCS : bool) (rbuf delivered : list val)                (* tcpMailboxesRemote + the receiving connection handler:
                                                                     rbuf = handler's localBuffer, delivered = queued batches (ghost) *)
+| LCrdt (value oldValue : Z) (hasOld : bool)                      (* crdt.go, one node without peers, GCounter payload:
+                                                                    value = the node's own count *)
+| LTwoPC (value oldValue : val) (cs : tcs)                        (* twopc.go, no replicas *)
+| LPlace                                                          (* PlaceHolder: every method panics *)
+| LFD (st : option bool).                                         (* SingleFailureDetector: None = uninitialized,
+                                                                    Some b = "the monitored archetype has failed" = b *)
 
 Definition is_str (v : val) : bool := match v with VS _ => true | _ => false end.
 
@@ -457,9 +470,45 @@ Definition leaf_step (s : leaf) (a : act) : leaf * res val :=
       | ATouch [] => (s, Refuse)
       | _ => (s, Crash)
       end
+  | LCrdt value old hasOld =>
+      match a with
+      | ARead [] => (s, Ok (VI value))
+      | AWrite [] v =>
+          let old' := if hasOld then old else value in
+          match v with
+          | VI n => (LCrdt (add32 value n) old' true, Ok VD)
+          | _ => (LCrdt value old' true, Crash)                              (* AsNumber panics *)
+          end
+      | ATouch [] => (s, Refuse)
+      | _ => (s, Crash)
+      end
+  | LTwoPC value old cs =>
+      match a with
+      | ARead [] => (LTwoPC value old (tcs_enter cs), Ok value)
+      | AWrite [] v => (LTwoPC v old (tcs_enter cs), Ok VD)
+      | ATouch [] => (s, Refuse)
+      | _ => (s, Crash)
+      end
+  | LPlace =>
+      match a with
+      | ATouch [] => (s, Refuse)                  (* the wrapper refused before reaching the PlaceHolder *)
+      | _ => (s, Crash)
+      end
+  | LFD st =>
+      match a with
+      | ARead [] => match st with Some b => (s, Ok (VB b)) | None => (s, Refuse) end
+      | ATouch [] => (s, Refuse)
+      | _ => (s, Crash)
+      end
   end.
 
-Definition leaf_pc (s : leaf) : leaf * bool := (s, true).
+(* PreCommit is trivial for every kind except the 2PC variable, which (having nobody to ask) moves to
+   hasPreCommitted *)
+Definition leaf_pc (s : leaf) : leaf * bool :=
+  match s with
+  | LTwoPC value old _ => (LTwoPC value old TPre, true)
+  | _ => (s, true)
+  end.
 
 Definition leaf_cm (s : leaf) : leaf :=
   match s with
@@ -476,6 +525,10 @@ Definition leaf_cm (s : leaf) : leaf :=
   | LShared value old hasLock other => if hasLock then LShared value value false other else s
   | LRelaxed _ sent inflight down => LRelaxed false (sent ++ inflight) [] down
   | LTcp inCS rbuf delivered => if inCS then LTcp false [] (delivered ++ rbuf) else s
+  | LCrdt value old _ => LCrdt value old false
+  | LTwoPC value old cs => match cs with TPre => LTwoPC value value TNot | _ => s end   (* Commit asserts hasPreCommitted *)
+  | LPlace => s
+  | LFD _ => s
   end.
 
 Definition leaf_ab (s : leaf) : leaf :=
@@ -492,12 +545,17 @@ Definition leaf_ab (s : leaf) : leaf :=
   | LShared value old hasLock other => if hasLock then LShared old old false other else s
   | LRelaxed _ _ _ _ => s
   | LTcp _ rbuf delivered => LTcp false rbuf delivered
+  | LCrdt value old hasOld => if hasOld then LCrdt old old false else s
+  | LTwoPC _ old _ => LTwoPC old old TNot
+  | LPlace => s
+  | LFD _ => s
   end.
 
 Definition leaf_abp (s : leaf) : bool :=
   match s with
   | LSOut _ _ _ => true                      (* "can't abort SingleOutputChan" *)
   | LRelaxed hasSent _ _ _ => hasSent        (* "cannot abort a critical section with a sent message" *)
+  | LPlace => true                         (* ErrPlaceHolderAccess *)
   | _ => false
   end.
 
@@ -549,10 +607,27 @@ Section Sum.
       (fun s => match s with inl x => i_abp I1 x | inr y => i_abp I2 y end).
 End Sum.
 
-Definition node : Type := leaf + imap.
+(* nestedArchetype: every ReadValue / WriteValue / PreCommit / Commit / Abort of the outer resource is one
+   request to the nested system and its answer (read_ack with the value, write_ack, precommit_ack, commit_ack,
+   abort_ack; "aborted" or a timeout = refusal; a stopped or misbehaving nested system = error).  The outer
+   resource keeps no state of its own, so it is the nested system's state that is carried; the nested system
+   is any leaf kind.  Index is blocked by ArchetypeResourceLeafMixin. *)
+Definition nested_act (a : act) : option act :=
+  match a with
+  | ARead [] => Some a
+  | AWrite [] _ => Some a
+  | ATouch [] => Some a
+  | _ => None
+  end.
+Definition nested_impl : impl leaf act :=
+  mkImpl (fun s a => match nested_act a with Some a' => leaf_step s a' | None => (s, if false then Refuse else Crash) end)
+         leaf_pc leaf_cm leaf_ab leaf_abp.
+
+Definition node : Type := leaf + (imap + leaf).
 Definition NLeaf (l : leaf) : node := inl l.
-Definition NMap (m : imap) : node := inr m.
-Definition node_impl : impl node act := sum_impl leaf_impl imap_impl.
+Definition NMap (m : imap) : node := inr (inl m).
+Definition NNested (l : leaf) : node := inr (inr l).
+Definition node_impl : impl node act := sum_impl leaf_impl (sum_impl imap_impl nested_impl).
 
 Definition touch_of (a : act) (j : nat) : act :=
   match a with
@@ -615,7 +690,7 @@ Definition env_handle (e : envop) : string :=
 Definition ctx_env (c : ctx) (e : envop) : ctx :=
   match fres c (env_handle e) with
   | Some (inl l) => mkFam (fupd String.eqb (fres c) (env_handle e) (NLeaf (leaf_env e l))) (fdirty c)
-  | Some (inr m) =>
+  | Some (inr (inl m)) =>
       match e with
       | EPushAt h k v =>
           match fres m k with
@@ -653,6 +728,10 @@ Definition leaf_snap (l : leaf) : val :=
   | LShared v _ _ _ => v
   | LRelaxed _ sent inf _ => VT (sent ++ inf)
   | LTcp _ _ delivered => VT delivered
+  | LCrdt v _ _ => VI v
+  | LTwoPC v _ _ => v
+  | LPlace => VD
+  | LFD st => match st with Some b => VB b | None => VD end
   end.
 
 (* a snapshot request: handle, and for a map the keys to look at *)
@@ -660,7 +739,8 @@ Definition node_snap (n : option node) (keys : list val) : val :=
   match n with
   | None => VD
   | Some (inl l) => leaf_snap l
-  | Some (inr m) => VT (map (fun k => match fres m k with Some l => leaf_snap l | None => VD end) keys)
+  | Some (inr (inl m)) => VT (map (fun k => match fres m k with Some l => leaf_snap l | None => VD end) keys)
+  | Some (inr (inr l)) => leaf_snap l
   end.
 
 Definition ctx_snap (c : ctx) (q : list (string * list val)) : list val :=
@@ -674,10 +754,11 @@ Definition leaf_nontx (l : leaf) : bool :=
 Definition node_nontx (n : option node) (keys : list val) : bool :=
   match n with
   | Some (inl l) => leaf_nontx l
-  | Some (inr m) => match keys with
-                    | k :: _ => match fres m k with Some l => leaf_nontx l | None => false end
-                    | [] => false
-                    end
+  | Some (inr (inl m)) => match keys with
+                          | k :: _ => match fres m k with Some l => leaf_nontx l | None => false end
+                          | [] => false
+                          end
+  | Some (inr (inr l)) => leaf_nontx l
   | None => false
   end.
 Definition ctx_snap_panic (c : ctx) (q : list (string * list val)) : list val :=
@@ -699,7 +780,7 @@ Record attempt := mkAttempt {
 Definition elem_refused (c : ctx) (epf : list (string * val)) (h : string) : bool :=
   existsb (fun hk => String.eqb h (fst hk) &&
                      match fres c h with
-                     | Some (inr m) => fmem val_eqb (snd hk) (fdirty m)
+                     | Some (inr (inl m)) => fmem val_eqb (snd hk) (fdirty m)
                      | _ => false
                      end) epf.
 
